@@ -31,7 +31,7 @@ const prop = "C07"
 func TestMain(m *testing.M) {
 	core.DeclareFaults("F1-writer-error", "F1-partial-accept", "F2-reader-error", "F3-cut", "F4-drop", "F4-dup", "F4-swap", "F4-splice",
 		"F5-append", "F6-flip", "F7-aad", "F8-key", "src-short-read", "src-zero-read", "src-eof-with-data")
-	core.DeclareProbes("lookahead-carried", "first-offset", "empty-plaintext", "exact-multiple", "write-spans-2-segments",
+	core.DeclareProbes("neighbour-writer-open-across-the-judged-stream", "stream-of-another-key-read-first", "lookahead-carried", "first-offset", "empty-plaintext", "exact-multiple", "write-spans-2-segments",
 		"zero-length-write", "zero-length-read", "read-buffer-smaller-than-segment", "unreader-replay-2nd-key", "unreader-replay-3rd+-key",
 		"error-in-header", "error-in-first-segment", "error-in-last-segment", "error-at-len-ct", "write-after-close", "double-close",
 		"ref-decodes-tink", "tink-decodes-ref", "more-than-65536-segments", "crash-image-read-back", "keyset-through-serialization", "write-retried-after-error", "keyset-level", "subtle-level", "zero-nil-from-tink-reader")
@@ -545,6 +545,7 @@ func runStream(t *rapid.T) {
 	p := drawKeyCfg(t, level == "subtle", "k0.")
 	var enc, dec, other tink.StreamingAEAD
 	nKeys, primIdx := 1, 0
+	var allKeys []streamref.Params // keyset level: the parameters (and key material) of every key of the keyset
 	var err error
 	switch level {
 	case "subtle":
@@ -571,6 +572,7 @@ func runStream(t *rapid.T) {
 				ps[i] = drawKeyCfg(t, false, fmt.Sprintf("k%d.", i+1))
 			}
 		}
+		allKeys = ps
 		via := rapid.SampledFrom([]string{"", "", "binary", "json"}).Draw(t, "keysetVia")
 		if via != "" {
 			r.Probe("keyset-through-serialization")
@@ -651,7 +653,17 @@ func runStream(t *rapid.T) {
 		partial = rapid.Bool().Draw(t, "partial")
 		r.Logf("writer device fails from offset %d (%s) partial=%v", failAt, posClass, partial)
 	}
+	// One primitive serves many streams, also at the same time: sometimes a neighbour stream is opened on the same
+	// primitive before the judged one and finished after it. The neighbour gets a fault-free device and must be a
+	// well-formed stream of its own plaintext whatever happens to the judged stream in between.
+	var nb *neighbour
+	if ptClass != "beyond-2^16-segments" && rapid.IntRange(0, 3).Draw(t, "neighbourWriter") == 0 {
+		nb = openNeighbour(r, enc, g.Bytes(13, 0, rapid.IntRange(0, 3*p.S).Draw(t, "neighbourLen")), []byte("neighbour-aad"))
+	}
 	wr := writeOut(r, enc, pt, aad, wChunks, failAt, partial, afterClose, p)
+	if nb != nil {
+		nb.finish(r, p, dec)
+	}
 	r.ObsErr("ctor", wr.ctorErr)
 	r.ObsErr("write", wr.writeErr)
 	r.ObsErr("close", wr.closeErr)
@@ -698,6 +710,20 @@ func runStream(t *rapid.T) {
 	nontrivial := len(rc.chunks) > 0 || len(rc.bufSizes) > 0 || len(wChunks) > 0 || fault != "F0"
 	switch fault {
 	case "F0", "F1":
+		if len(allKeys) > 1 && rapid.Bool().Draw(t, "otherKeyFirst") {
+			// a history on the decrypting primitive: a stream made (by the reference encoder) under ANOTHER key of the
+			// keyset is read first, then the judged stream under the primary
+			j := (primIdx + 1 + rapid.IntRange(0, len(allKeys)-2).Draw(t, "otherKeyIdx")) % len(allKeys)
+			q := allKeys[j]
+			opt := g.Bytes(13, 4096, rapid.IntRange(0, 2*q.S).Draw(t, "otherKeyLen"))
+			oct, err := q.Encode(aad, g.Bytes(13, 8192, q.K), g.Bytes(13, 8300, 7), opt)
+			if err != nil {
+				t.Fatalf("harness: reference encoder failed: %v", err)
+			}
+			r.Probe("stream-of-another-key-read-first")
+			rr0 := readBack(r, dec, oct, aad, readCfg{failAt: -1}, len(opt))
+			checkClean(r, rr0, opt, fmt.Sprintf("reference-stream under key #%d of the keyset, read before the judged one", j))
+		}
 		rr := readBack(r, dec, ct, aad, rc, ptLen)
 		noteSource(r, rr)
 		checkClean(r, rr, pt, "tink-stream")
@@ -1017,4 +1043,54 @@ func contains(l []int, v int) bool {
 		}
 	}
 	return false
+}
+
+// neighbour is a second encrypting writer on the primitive under test, kept open across the judged stream's life.
+type neighbour struct {
+	w    io.WriteCloser
+	buf  bytes.Buffer
+	pt   []byte
+	aad  []byte
+	done int
+	err  error
+}
+
+func openNeighbour(r *core.Run, a tink.StreamingAEAD, pt, aad []byte) *neighbour {
+	n := &neighbour{pt: pt, aad: aad}
+	func() {
+		defer catch(r, "neighbour NewEncryptingWriter")
+		n.w, n.err = a.NewEncryptingWriter(&n.buf, aad)
+	}()
+	if n.err == nil && n.w != nil {
+		half := len(pt) / 2
+		func() {
+			defer catch(r, "neighbour Write")
+			_, n.err = n.w.Write(pt[:half])
+		}()
+		n.done = half
+	}
+	r.Probe("neighbour-writer-open-across-the-judged-stream")
+	return n
+}
+
+func (n *neighbour) finish(r *core.Run, p streamref.Params, dec tink.StreamingAEAD) {
+	if n.err == nil && n.w != nil {
+		func() {
+			defer catch(r, "neighbour Write/Close")
+			if _, n.err = n.w.Write(n.pt[n.done:]); n.err == nil {
+				n.err = n.w.Close()
+			}
+		}()
+	}
+	if n.err != nil || n.w == nil {
+		r.Violation("C07/spurious-write-error", fmt.Sprintf("a second stream opened on the same primitive (fault-free device) failed: %v", n.err))
+		return
+	}
+	got, err := p.Decode(n.aad, n.buf.Bytes())
+	if err != nil || !bytes.Equal(got, n.pt) {
+		r.Violation("C07/format-mismatch:tink-to-ref", fmt.Sprintf("a second stream written on the same primitive while the judged one was written: reference decoder err=%v, got %d bytes want %d", err, len(got), len(n.pt)))
+		return
+	}
+	rr := readBack(r, dec, n.buf.Bytes(), n.aad, readCfg{failAt: -1}, len(n.pt))
+	checkClean(r, rr, n.pt, "neighbour stream written on the same primitive")
 }
